@@ -201,6 +201,30 @@ def work(job):
                     if rep3 is not None and rep3.status == 0 and rep3.out != exp_r:
                         r.violate('%s-range:%s' % (name, site_of(mid, accept, rep3.out[len(pre):], exp_r[len(pre):])), 'mmd_critic_markup_%s_range(%d,%d) differs from the edit script' % (name, st, ln),
                                   dict(requests=[rq], expected_b64=core.b64(exp_r)), 'source  : %s\nexpected: %s\ngot     : %s' % (core.show(src, 300), core.show(exp_r, 300), core.show(rep3.out, 300)))
+                # arbitrary sub-range (cutting through marks): only what lies inside the range is looked at, so the result is the string with
+                # that slice replaced by the slice processed on its own
+                if src and all(b < 128 for b in src):
+                    for _ in range(2):
+                        st = rng.randrange(len(src))
+                        ln = rng.randrange(0, len(src) - st + 1)
+                        if rng.random() < 0.5:
+                            # end the range right inside / right before a marker
+                            ends = [m.start() + k for m in re.finditer(rb'\+\+\}|--\}|~~\}|<<\}|==\}|~>', src) for k in (0, 1, 2, 3) if m.start() + k > st]
+                            if ends:
+                                ln = rng.choice(ends) - st
+                        sub = src[st:st + ln]
+                        rq_r = D.req_to_json('asan', 'CRITIC', 0, 0, 0, (0 if accept else 1) | (1 << 4), [src, st, ln])
+                        rep_r = s.call('asan', 'CRITIC', 0, 0, 0, (0 if accept else 1) | (1 << 4), [src, st, ln], crash_is_violation=False)
+                        rep_w = s.call('asan', 'CRITIC', 0, 0, 0, 0 if accept else 1, [sub], crash_is_violation=False)
+                        r.evaluations += 2
+                        r.stats['arbitrary_ranges_compared'] += 1
+                        if rep_r is None or rep_w is None or rep_r.status or rep_w.status:
+                            continue
+                        exp_a = src[:st] + rep_w.out + src[st + ln:]
+                        if rep_r.out != exp_a:
+                            r.violate('%s-range:outside-range-touched' % name, 'mmd_critic_markup_%s_range(%d,%d) differs from the string with that slice processed on its own' % (name, st, ln),
+                                      dict(requests=[rq_r]), 'source  : %s\nslice   : %s\nexpected: %s\ngot     : %s' % (core.show(src, 300), core.show(sub, 120), core.show(exp_a, 300), core.show(rep_r.out, 300)))
+                            break
                 # CLI -a/-r renders what the edited text renders to
                 if not has_stray and i % 20 == 0:
                     fmt = rng.choice(['html', 'latex', 'fodt'])
@@ -230,6 +254,44 @@ def work(job):
     return r
 
 
+def work_many_openers(job):
+    """N unmatched openers in front of an edit script (N around the pairing code's 1000-entry shortcut): the openers stay, every change is applied"""
+    seed, lo, hi = job
+    r = core.JobResult()
+    with core.Session(r, timeout=60.0) as s:
+        for i in range(lo, hi):
+            rng = core.job_rng(seed, ID, 'openers', i)
+            g = None
+            for _ in range(20):
+                g = gen_case(rng)
+                if g is not None and not g[1]:
+                    break
+            if g is None or g[1]:
+                continue
+            nodes = g[0]
+            n = rng.choice([990, 999, 1000, 1001, 1002, 1200, 2500])
+            opener = rng.choice(['{== ', '{++ ', '{-- ', '{>> ', '{~~ ', '{== x {++ '])
+            pre = (opener * n).encode()
+            src = pre + ser(nodes).encode('utf-8')
+            for accept in (True, False):
+                name = 'accept' if accept else 'reject'
+                exp = pre + apply(nodes, accept).encode('utf-8')
+                rq = D.req_to_json('asan', 'CRITIC', 0, 0, 0, 0 if accept else 1, [src])
+                rep = s.call('asan', 'CRITIC', 0, 0, 0, 0 if accept else 1, [src], crash_is_violation=False)
+                r.evaluations += 1
+                r.stats['scripts_after_many_openers'] += 1
+                if rep is None or rep.status:
+                    continue
+                if rep.out != exp:
+                    k = 0
+                    while k < min(len(exp), len(rep.out)) and exp[k] == rep.out[k]:
+                        k += 1
+                    r.violate('%s:after-%s-unmatched-openers' % (name, 'fewer-than-1000' if n < 1000 else '1000-or-more'), '%s after %d unmatched %r openers differs from the edit script at byte %d' % (name, n, opener, k),
+                              dict(requests=[rq]), 'expected: ...%s\ngot     : ...%s' % (core.show(exp[max(len(pre) - 10, k - 40):k + 120], 200), core.show(rep.out[max(len(pre) - 10, k - 40):k + 120], 200)))
+            r.distinct.add(core.h64('openers', src))
+    return r
+
+
 def main():
     chk = core.Check(ID)
     n = chk.scale(20000, 500000)
@@ -240,4 +302,6 @@ def main():
     chk.assumptions = ['well-formed = properly nested marks; a stray marker is one whose type has no pair anywhere in the document']
     chunk = max(20, n // 64)
     chk.run_jobs(work, [(chk.seed, lo, min(n, lo + chunk)) for lo in range(0, n, chunk)])
+    no = chk.scale(320, 6000)
+    chk.run_jobs(work_many_openers, [(chk.seed, lo, min(no, lo + 20)) for lo in range(0, no, 20)])
     return chk.finish()
